@@ -118,7 +118,7 @@ pub fn generate(prop: &str, rng: &mut Rng, plan: &mut Plan, index: u64) {
             13 => StatusOp::Detach,
             14 => StatusOp::Terminate,
             15 => StatusOp::Kill,
-            16 => StatusOp::SendSignal(*rng.pick(&[1, 2, 3, 9, 10, 12, 15, 17, 18, 19, 23, 28, 34, 63, 64, 0, 65, 143, 265, -1])),
+            16 => StatusOp::SendSignal(*rng.pick(&[1, 2, 3, 9, 10, 12, 15, 17, 18, 19, 23, 28, 34, 63, 64, 0, 65, 143, 265, -1, i32::MAX, i32::MIN])),
             _ => StatusOp::Terminate,
         };
         ops_push(&mut sp.ops, op);
